@@ -562,9 +562,29 @@ impl Prop for C16 {
                     return out;
                 };
                 let mut cmd_args: Vec<String> = vec![cmd.clone()];
-                if cmd == "stat" {
-                    cmd_args.push("-s".into());
-                    cmd_args.push("sum".into());
+                // option variants are a function of the case (no randomness at run time)
+                let variant = (damages.len() + kill_points.len() + img.len()) % 4;
+                let mut header_line: Option<&str> = None;
+                let mut out_file = false;
+                match (cmd.as_str(), variant) {
+                    ("stat", 0) => cmd_args.extend(["-s".into(), "sum".into()]),
+                    ("stat", 1) => {
+                        cmd_args.extend(["-s".into(), "sum".into(), "-H".into()]);
+                        header_line = Some("sum\n");
+                    }
+                    ("stat", 2) => cmd_args.extend(["-s".into(), "sum,s".into()]),
+                    ("stat", _) => {
+                        cmd_args.extend(["-s".into(), "s,sum".into(), "-H".into(), "-d".into(), ";".into()]);
+                        header_line = Some("segregating_sites;sum\n");
+                    }
+                    ("view", 1) => cmd_args.extend(["-O".into(), "npy".into()]),
+                    ("view", 2) | ("fold", 2) => {
+                        cmd_args.extend(["-o".into(), "@DIR@/out.sfs".into()]);
+                        out_file = true;
+                    }
+                    ("view", 3) => cmd_args.extend(["--precision".into(), "3".into(), "-n".into()]),
+                    ("fold", 3) => cmd_args.extend(["--fill".into(), "zero".into()]),
+                    _ => {}
                 }
                 let run_on = |ctx: &mut Ctx, bytes: &[u8]| {
                     let mut args = cmd_args.clone();
@@ -586,7 +606,12 @@ impl Prop for C16 {
                             files: vec![("in.sfs".into(), gen::hex(bytes))],
                         }
                     };
-                    let r = l2::run_child(ctx, &child);
+                    let mut r = l2::run_child(ctx, &child);
+                    if out_file {
+                        // what the -o file holds afterwards is judged like stdout
+                        let written = std::fs::read(r.dir.join("out.sfs")).unwrap_or_default();
+                        r.stdout.extend_from_slice(&written);
+                    }
                     l2::cleanup(&r);
                     r
                 };
@@ -641,7 +666,9 @@ impl Prop for C16 {
                     let class = what.split(' ').next().unwrap_or("").to_string();
                     out.count(&format!("fault.l2.{}", class.split('@').next().unwrap_or("")), 1);
                     out.sigs.push(fnv1a(format!("{cmd}/{class}/{}", r.status_class()).as_bytes()));
-                    if r.ok() || !r.stdout.is_empty() {
+                    // with -H a header line alone is not a statistics row
+                    let wrote = !r.stdout.is_empty() && Some(r.stdout.as_slice()) != header_line.map(|h| h.as_bytes());
+                    if r.ok() || wrote {
                         // a valid torn file can only arise if the kill left the complete file
                         if what.starts_with("torn_by_kill") && *bad == img {
                             continue;
